@@ -23,6 +23,9 @@ structure PSt where
   /-- the k-th store load of the next mirrored operation fails -/
   failNext : Option Nat := none
   last : String := "-"
+  /-- a store-load failure has been injected: the functional model (which knows no faults) no
+      longer follows, the cross-check of the two models is off for the rest of the case -/
+  faulted : Bool := false
 
 def pfuel : Nat := 100000
 
@@ -181,6 +184,22 @@ def pmirror (e : Enc) (layer : Nat → Nat) (bf : Nat) (p : PSt) (toks : List St
       | _, _ => p
     else p
   | _ => p
+
+/-- cross-check of the two models: every tree of the object-level model must denote (`absTree`)
+    the tree the functional model holds in the same slot, up to flags on absent links -/
+def pcross (p : PSt) (ftrees : Std.HashMap Nat Tree) : String := Id.run do
+  if p.faulted then return "ok"
+  let mut bad : List String := []
+  for (sl, t) in p.trees.toList do
+    match ftrees[sl]?, absTree p.ps pfuel t with
+    | some ft, some pt =>
+      let same := normFlags ft.root == normFlags pt.root && ft.size == pt.size && ft.height == pt.height &&
+        ft.growAfter == pt.growAfter && ft.shrinkBelow == pt.shrinkBelow && ft.dirty == pt.dirty &&
+        (ft.rootP == pt.rootP || Tree.isEmptyTop ft.root)
+      if !same then bad := s!"{sl}" :: bad
+    | none, _ => bad := s!"{sl}:nofun" :: bad
+    | _, none => bad := s!"{sl}:noabs" :: bad
+  return if bad.isEmpty then "ok" else "mismatch:" ++ ",".intercalate bad.reverse
 
 /-- commands of the object-level model itself; `none` = not one of them -/
 def pcommand (p : PSt) (toks : List String) : Option (PSt × String) :=
